@@ -163,6 +163,22 @@ var templates = []Template{
 	8: {Name: "bal bar/baz/foo/uosmo 3:1:5:2 fee0.001", Kind: "bal", Coins: [][2]string{{"bar", "3000000"}, {"baz", "1000000"}, {"foo", "5000000"}, {"uosmo", "20000000"}}, Weights: []int64{3, 1, 5, 2}, Fee: "0.001"},
 	9: {Name: "bal 8 assets fee0.002", Kind: "bal", Coins: [][2]string{{"bar", "3000000"}, {"baz", "1000000"}, {"foo", "5000000"}, {"uosmo", "20000000"},
 		{"qaa", "1000000"}, {"qbb", "2000000"}, {"qcc", "3000000"}, {"qdd", "4000000"}}, Weights: []int64{3, 1, 5, 2, 1, 1, 4, 8}, Fee: "0.002"},
+	// thin pools (a reserve of a few thousand units or less): targets of the whale swaps, whose output is the whole
+	// out-reserve or all but a fraction of a unit of it
+	10: {Name: "bal bar/baz thin 2:1 fee0", Kind: "bal", Coins: [][2]string{{"bar", "100"}, {"baz", "3000000"}}, Weights: []int64{2, 1}, Fee: "0"},
+	11: {Name: "bal foo/bar thin 1:1 fee0.003", Kind: "bal", Coins: [][2]string{{"foo", "5000"}, {"bar", "6060"}}, Weights: []int64{1, 1}, Fee: "0.003"},
+}
+
+// whale is a swap amount nine and more orders of magnitude above a thin pool's reserves.
+const whale = "10000000000000"
+
+func (p PoolRec) thin() bool {
+	for _, c := range p.Init {
+		if c.Amount.LT(sdkmath.NewInt(10000)) {
+			return true
+		}
+	}
+	return false
 }
 
 // ---------------------------------------------------------------------------------------------
@@ -1163,6 +1179,15 @@ func (w *World) Enabled(al *Alphabet) func(ctx sdk.Context, l *Ledger, depth int
 			)
 			if al.Tiny {
 				ops = append(ops, Op{K: "swapin", A: "B", X: "1", Y: "1", R: []Hop{{first.ID, f0, f1}}})
+			}
+			// whale swaps into every thin pool, both directions (only states holding a thin pool grow)
+			for _, p := range pools {
+				if p.thin() {
+					d0, d1 := p.Denoms[0], p.Denoms[1]
+					ops = append(ops,
+						Op{K: "swapin", A: "A", X: whale, Y: "1", R: []Hop{{p.ID, d0, d1}}},
+						Op{K: "swapin", A: "B", X: whale, Y: "1", R: []Hop{{p.ID, d1, d0}}})
+				}
 			}
 			p2 := findPath(pools, 2, "", "", nil)
 			p3 := findPath(pools, 3, "", "", nil)
